@@ -9,7 +9,7 @@ use crate::{
     app::ReadMode,
     explore::{self, deadline, e2, fates_of, guarded, Devs, RunOut, FATE_ALTS},
     report::{Args, Report, Tier, Violation},
-    scen::{self, cfg_by_name, completion, diagnose, drive, integrity, std_pair, Op, Wl},
+    scen::{self, cfg_by_name, completion, diagnose, drive, integrity, std_pair_pre, Op, Wl},
     sim::{PairCfg, CLIENT, SERVER},
 };
 
@@ -100,9 +100,10 @@ pub struct Out {
 
 pub fn run_case(base: Instant, c: &Case, devs: &Devs) -> Out {
     let r = guarded(|| {
-        let mut p = std_pair(base, &c.cfg, c.wl, c.read);
-        p.w.fates = fates_of(devs, &FATE_ALTS);
-        p.w.keep_data = false;
+        let mut p = std_pair_pre(base, &c.cfg, c.wl, c.read, |w| {
+            w.fates = fates_of(devs, &FATE_ALTS);
+            w.keep_data = false;
+        });
         let done = drive(&mut p, &c.script, 80_000, Duration::from_secs(900));
         (p, done)
     });
@@ -139,8 +140,7 @@ fn replay(path: &std::path::Path) -> ! {
     let c = all.iter().find(|c| c.name == name).unwrap_or_else(|| crate::report::machinery("unknown case"));
     let devs: Devs = r["devs"].as_array().map(|d| d.iter().map(|x| (x[0].as_u64().unwrap(), x[1].as_u64().unwrap() as u16)).collect()).unwrap_or_default();
     let base = Instant::now();
-    let mut p = std_pair(base, &c.cfg, c.wl, c.read);
-    p.w.fates = fates_of(&devs, &FATE_ALTS);
+    let mut p = std_pair_pre(base, &c.cfg, c.wl, c.read, |w| w.fates = fates_of(&devs, &FATE_ALTS));
     let done = drive(&mut p, &c.script, 80_000, Duration::from_secs(900));
     print!("{}", crate::trace::dump(&p.w));
     println!("done={done} integrity={:?} completion={:?}", integrity(&p), completion(&p));
